@@ -38,6 +38,10 @@ ASSUMPTIONS = ["default (spherical-shell) position mode; the Cartesian getters a
 OUTSIDE = ["the geometry itself", "sizes beyond the bound", "Cartesian position mode"]
 
 
+FUNCTIONS += ["molgri.space.fullgrid.PositionGrid.get_cartesian_surfaces", "PositionGrid._get_coordinates_of_border_polygons", "PositionGrid.get_borders_of_position_grid (Cartesian mode)"]
+STUBS += ["`cart_surfaces` shapes: the grid (directions, radii, scipy.spatial.Voronoi) is a concrete run of the real constructors; "
+          "utils.get_polygon_area(order_points(polygon)) -> a fresh positive number per distinct vertex set (vertex ordering + shoelace are out of reach, see C06)"]
+
 def bounds(tier):
     if tier == "quick":
         return {"n_b": [1, 2, 3], "n_o": [1, 2, 3], "n_t": [1, 2, 3], "direction_patterns": "all symmetric patterns", "rotation_patterns": "all (symbolic, by forking)",
@@ -68,6 +72,9 @@ def shapes(tier, seed):
         pats = list(sym_patterns(o))
         out.append({"n_b": b, "n_o": o, "n_t": t, "pattern": [list(p) for p in pats[-1]], "gseed": seed + 1, "fixed": {}, "cartesian": True})
     out.sort(key=lambda s: (s["n_b"] * s["n_o"] * s["n_t"], s["n_b"]))
+    # Cartesian face areas as the position grid itself assembles them: real Qhull combinatorics of a concrete grid, SYMBOLIC polygon areas
+    for (o, t) in ((4, 2), (5, 2), (6, 3), (12, 2)) if tier == "quick" else ((4, 2), (5, 2), (6, 2), (6, 3), (8, 2), (12, 2), (12, 3), (20, 2)):
+        out.append({"kind": "cart_surfaces", "n_b": 1, "n_o": o, "n_t": t, "pattern": [], "gseed": seed, "fixed": {}})
     return out
 
 
@@ -89,7 +96,127 @@ def _vars(shape):
     return area, arc, ang, r, f, orb, order, pat, val, vols
 
 
+CS_RADII = {2: "[0.1, 0.25]", 3: "[0.1, 0.25, 0.45]"}
+
+
+def _cs_key(polygon):
+    return tuple(sorted(tuple(round(float(c), 7) for c in v) for v in np.asarray(polygon, dtype=float).reshape(-1, 3)))
+
+
+def _cs_grid(F, shape):
+    return F.FullGrid("1", f"ico_{shape['n_o']}", CS_RADII[shape["n_t"]], position_grid_cartesian=True)
+
+
+def _cs_expected_key(pg, i, j):
+    """the face between Cartesian cells i and j, as the statement means it: the Voronoi vertices the two cells share"""
+    vc = pg.voronoi_cells
+    ri, rj = vc.regions[vc.point_region[i]], vc.regions[vc.point_region[j]]
+    shared = (set(ri) & set(rj)) - {-1}          # -1 marks an open cell (a vertex at infinity): no coordinates, not part of the polygon
+    return _cs_key([v for k, v in enumerate(vc.vertices) if k in shared]), len(shared)
+
+
+def run_cart_surfaces(shape):
+    """Cartesian position mode, face areas: the REAL PositionGrid.get_cartesian_surfaces / _get_coordinates_of_border_polygons /
+    get_adjacency_of_position_grid run on a concrete grid with the real Qhull combinatorics; the AREA of a polygon (vertex ordering +
+    shoelace: utils.order_points / get_polygon_area, out of reach, see C06) is a contract stand-in: a fresh positive number per distinct
+    vertex set.  Proved for all values of those areas: entry (i, j) is the area of the polygon the Voronoi cells i and j share -- hence the
+    matrix is symmetric -- on the adjacency pattern."""
+    import contextlib, io
+    import molgri.space.fullgrid as F
+    eng = Engine()
+    prover = Prover(timeout_ms=10000, budget_s=120)
+    acc = Acc(shape)
+    areas = {}
+
+    def area_of(polygon):
+        key = _cs_key(polygon)
+        if key not in areas:
+            areas[key] = z3.Real(f"face_area_{len(areas)}")
+        return SR(areas[key])
+
+    def body():
+        areas.clear()
+        with contextlib.redirect_stdout(io.StringIO()):
+            fg = _cs_grid(F, shape)          # the grid itself (directions, radii, Qhull) is a concrete run of the real constructors
+            pg = fg.position_grid
+            pg.get_adjacency_of_position_grid()
+            # the assembly of the face areas runs on the array model (symbolic areas may be stored into fresh arrays)
+            with bound(F, get_polygon_area=area_of, order_points=lambda pts: pts, print=noprint, np=NPProxy()):
+                S = pg.get_borders_of_position_grid()
+            A = pg.get_adjacency_of_position_grid()
+            return pg, S, A
+
+    for path in eng.explore(body):
+        acc.begin(prover, path)
+        if path.kind == "exc":
+            acc.structural("no_exception", False, detail=repr(path.value) + (path.tb or "")[-600:], cex={"kind": "exception", "exc": type(path.value).__name__, "model": {}})
+            continue
+        pg, S, A = path.value
+        pos = [v > 0 for v in areas.values()]
+        if acc.reachable is not True:
+            acc.reach(prover.satisfiable(path.premises + pos))
+        n = len(pg.get_position_grid_as_array())
+        ok = tuple(S.shape) == (n, n) and len(S.row) == len(S.col) == len(S.data) == len(A.row) and list(map(int, S.row)) == list(map(int, A.row)) \
+            and list(map(int, S.col)) == list(map(int, A.col))
+        acc.structural("stored_on_the_adjacency_pattern", ok, detail=(tuple(S.shape), len(S.data), len(A.row)), cex={"model": {}})
+        if not ok:
+            continue
+        got = {}
+        claims = []
+        for i, j, v in zip(S.row, S.col, S.data):
+            i, j = int(i), int(j)
+            got[(i, j)] = v
+            key, nshared = _cs_expected_key(pg, i, j)
+            exp = areas.get(key) if nshared > 1 else z3.RealVal(0)
+            if exp is None:
+                acc.structural(f"face_polygon_seen[{i},{j}]", False, detail="the polygon shared by the two cells never reached the area function", cex={"model": {}})
+                continue
+            claims.append((f"entry_is_the_area_of_the_shared_face[{i},{j}]", z(v) == exp))
+        for (i, j), v in got.items():
+            if (j, i) in got and i < j:
+                claims.append((f"sym[{i},{j}]", z(v) == z(got[(j, i)])))
+            elif (j, i) not in got:
+                acc.structural(f"pattern_symmetric[{i},{j}]", False, detail="entry without its mirror image", cex={"model": {}})
+        acc.add(prover.prove_all(path.premises + pos, claims), make_cex=lambda r_: {"model": r_.model or {}})
+    return acc.result(eng.stats, prover.stats)
+
+
+def replay_cart_surfaces(cex):
+    """real Qhull, real order_points / get_polygon_area: the matrix must be symmetric and sit on the adjacency pattern; entry (i, j) must be
+    the area the real area function gives for the polygon the two cells share"""
+    import contextlib, io
+    import molgri.space.fullgrid as F
+    from molgri.space.utils import get_polygon_area, order_points
+    s = cex["shape"]
+    try:
+        with contextlib.redirect_stdout(io.StringIO()):
+            fg = _cs_grid(F, s)
+            pg = fg.position_grid
+            S = pg.get_borders_of_position_grid()
+            A = pg.get_adjacency_of_position_grid()
+    except Exception as e:  # noqa: BLE001
+        return {"reproduced": True, "detail": f"raised {e!r}"}
+    bad = []
+    D = S.toarray()
+    if list(map(int, S.row)) != list(map(int, A.row)) or list(map(int, S.col)) != list(map(int, A.col)):
+        bad.append("not on the adjacency pattern")
+    if not np.allclose(D, D.T, rtol=1e-9, atol=1e-12):
+        i, j = np.unravel_index(np.argmax(np.abs(D - D.T)), D.shape)
+        bad.append(f"face area between Cartesian cells {i} and {j}: {D[i, j]:.6g} in row {i} but {D[j, i]:.6g} in row {j}")
+    vc = pg.voronoi_cells
+    for i, j, v in zip(S.row, S.col, S.data):
+        shared = set(vc.regions[vc.point_region[i]]) & set(vc.regions[vc.point_region[j]])
+        poly = np.array([x for k, x in enumerate(vc.vertices) if k in shared])
+        exp = get_polygon_area(order_points(poly)) if len(poly) > 1 else 0.0
+        if not np.isclose(v, exp, rtol=1e-9, atol=1e-12):
+            bad.append(f"entry ({i},{j}) = {v:.6g}, the shared face has area {exp:.6g}")
+            break
+    return {"reproduced": bool(bad), "detail": str(bad[:3])}
+
+
 def run_shape(shape):
+    if shape.get("kind") == "cart_surfaces":
+        return run_cart_surfaces(shape)
     import molgri.space.fullgrid as F
     import molgri.space.translations as TR
     import molgri.space.voronoi as Vm
@@ -381,6 +508,8 @@ def numeric_violations(shape, model):
 
 
 def replay(cex):
+    if cex["shape"].get("kind") == "cart_surfaces":
+        return replay_cart_surfaces(cex)
     try:
         bad = numeric_violations(cex["shape"], cex.get("model", {}) or {})
     except RealCodeRaised as e:
